@@ -130,6 +130,7 @@ fn main() {
                 let mut st = spec::Stats::default();
                 engine::set_run_environment(sp);
                 let v = engine::on_spec_thread(sp, || props::c18::exec_corpus(sp, &mut st)).unwrap_or_default();
+                seams::clock::release_run_registries();
                 println!("DIG {} {}", i, v.last().copied().unwrap_or(0));
                 std::io::stdout().flush().ok();
             }
